@@ -160,16 +160,47 @@ package scanner
 //@   ensures [wf] wf_common(c)
 
 // ---- C17: expiry during compaction ----
+// ---- C07: what a compaction scan may delete ----
+// The scan is at record c = it_pos-1 of the iterator's ghost sequence; p = lastkept(c) is the record it
+// remembers as "previous". R = w.revision is the compaction revision. A version record may be
+// deleted only if (a) it is the current record, at or below R, and is a deletion marker, or (b) it
+// is the previous record, of the same key as the current one, and the current record is a newer
+// version at or below R (so no read at a revision >= R can need it), or (c) it is an expired
+// Event record (C17). The index record may be removed only by compare-and-delete, only if it
+// carries the deletion flag and its revision is at or below R (or it is an expired Event).
+//@ pred is_rec_kr(i, k, r) = 0 <= i && i < rec_n && r == rec_rev[i] && same_slice(k, uk_of(i))
+//@ pred expiry_case(w, rawKey, rev) = !native_ttl && w.timeoutRevision != 0 && rev <= w.timeoutRevision && len(w.eventsPrefix) > 0 && has_prefix(rawKey, events_dir)
+
+//@ func (*worker).isSkippedRawKey(rawKey, rev) (result)
+//@   props C07
+//@   requires w != nil && w.metricCli != nil
+//@   modifies inferred:(*worker).isSkippedRawKey
+//@   ensures [def] result == (len(w.lastCompactFailedRawKey) > 0 && bytes_eq(w.lastCompactFailedRawKey, rawKey))
+//@   ensures [frame] w.lastCompactFailedRawKey == old(w.lastCompactFailedRawKey) && dels == old(dels)
+
+//@ func (*worker).updateSkippedRawKey(rawKey, rev, err)
+//@   props C07
+//@   requires w != nil
+//@   modifies inferred:(*worker).updateSkippedRawKey
+//@   ensures [a-failed-delete-that-is-not-a-lost-race-skips-the-key] ite(err_is(err, storage.ErrCASFailed), w.lastCompactFailedRawKey == old(w.lastCompactFailedRawKey), w.lastCompactFailedRawKey == rawKey)
+
 //@ func (*worker).compactKey(key, rawKey, rev) (err)
 //@   props C17 C07
-//@   nosafety
 //@   requires w != nil && w.store != nil && w.metricCli != nil
+//@   requires [deletes-only-dead-or-superseded-versions] (w.compact && is_rec_kr(it_pos-1, rawKey, rev) && rev != 0 && rev <= w.revision && dead(it_pos-1)) || (w.compact && is_rec_kr(lastkept(it_pos-1), rawKey, rev) && rev != 0 && rec_uk[lastkept(it_pos-1)] == rec_uk[it_pos-1] && rec_rev[lastkept(it_pos-1)] < rec_rev[it_pos-1] && rec_rev[it_pos-1] <= w.revision) || expiry_case(w, rawKey, rev)
 //@   modifies inferred:(*worker).compactKey
+//@   ensures [at-most-one-delete] dels == old(dels) || dels == old(dels)+1
+//@   ensures [skipped-keys-are-left-alone] old(len(w.lastCompactFailedRawKey) > 0 && bytes_eq(w.lastCompactFailedRawKey, rawKey)) ==> dels == old(dels) && err == nil
+//@   ensures [a-failed-delete-skips-the-rest-of-the-key] err != nil && !err_is(err, storage.ErrCASFailed) ==> w.lastCompactFailedRawKey == rawKey
+
 //@ func (*worker).compactCurrent(iter, rawKey, rev) (err)
 //@   props C17 C07
-//@   nosafety
 //@   requires w != nil && w.store != nil && w.metricCli != nil
+//@   requires [index-removed-only-when-it-marks-a-deletion-at-or-below-R] (w.compact && 1 <= it_pos && it_pos <= rec_n && rec_rev[it_pos-1] == 0 && len(rec_val[it_pos-1]) == 9 && be64_of(rec_val[it_pos-1]) <= w.revision) || expiry_case(w, rawKey, rev)
 //@   modifies inferred:(*worker).compactCurrent
+//@   ensures [at-most-one-compare-and-delete] dels == old(dels) || dels == old(dels)+1
+//@   ensures [skipped-keys-are-left-alone] old(len(w.lastCompactFailedRawKey) > 0 && bytes_eq(w.lastCompactFailedRawKey, rawKey)) ==> dels == old(dels) && err == nil
+//@   ensures [a-failed-delete-skips-the-rest-of-the-key] err != nil && !err_is(err, storage.ErrCASFailed) ==> w.lastCompactFailedRawKey == rawKey
 
 // the expiry branch may delete only Event records (keys in the events directory under the
 // prefix), and only records at or below the timeout revision
@@ -179,7 +210,7 @@ package scanner
 //@   requires [index-values-hold-a-revision] revision == 0 ==> len(value) >= 8
 //@   requires [events-prefix-is-the-events-dir] len(w.eventsPrefix) == 0 || bytes_eq(w.eventsPrefix, events_dir)
 //@   modifies inferred:(*worker).compactIfExpired
-//@   ensures [only-event-records-expire] isExpired ==> has_prefix(rawKey, events_dir)
+//@   ensures [only-event-records-expire] isExpired ==> has_prefix(rawKey, events_dir) && len(w.eventsPrefix) > 0 && !native_ttl
 //@   ensures [expired-event-records-go-index-and-versions-alike] !native_ttl && w.timeoutRevision != 0 && len(w.eventsPrefix) > 0 && has_prefix(rawKey, events_dir) && ite(revision == 0, be64_of(value) <= w.timeoutRevision, revision <= w.timeoutRevision) ==> isExpired
 //@   ensures [only-at-or-below-the-timeout-revision] isExpired ==> w.timeoutRevision != 0 && ite(revision == 0, be64_of(value) <= w.timeoutRevision, revision <= w.timeoutRevision)
 
@@ -205,7 +236,7 @@ package scanner
 //@ pred is_rec(i, k, v, r) = r == rec_rev[i] && v == rec_val[i] && same_slice(k, uk_of(i))
 
 //@ func (*worker).run(ctx, receiver) (count, err)
-//@   props C03 C08
+//@   props C03 C07 C08
 //@   nosafety C08
 //@   requires [floor-checked] w.compact || !floor_set || floor <= w.revision
 //@   requires w != nil && w.store != nil && w.Coder != nil && w.metricCli != nil && receiver != nil
@@ -219,6 +250,8 @@ package scanner
 // first i that is visible at the read revision (-1: none). Their defining recursions are used
 // through the instances the proof needs (at the current position and at the previous record).
 //@   loop 0 assume [dead-def-at-previous-and-here] (lastvis(it_pos) >= 0 ==> dead(lastvis(it_pos)) == bytes_eq(rec_val[lastvis(it_pos)], w.tombstone)) && (it_pos < rec_n ==> dead(it_pos) == bytes_eq(rec_val[it_pos], w.tombstone))
+//@   loop 0 assume [expired-def-here] it_pos < rec_n ==> expired(it_pos) == (!native_ttl && w.timeoutRevision != 0 && len(w.eventsPrefix) > 0 && has_prefix(uk_of(it_pos), events_dir) && ite(rec_rev[it_pos] == 0, be64_of(rec_val[it_pos]) <= w.timeoutRevision, rec_rev[it_pos] <= w.timeoutRevision))
+//@   loop 0 assume [lastkept-def-here] lastkept(0) == -1 && -1 <= lastkept(it_pos) && lastkept(it_pos) < it_pos && (it_pos < rec_n ==> lastkept(it_pos+1) == ite(!expired(it_pos) && rec_rev[it_pos] <= w.revision && !(rec_rev[it_pos] == 0 && len(rec_val[it_pos]) == 9 && be64_of(rec_val[it_pos]) > w.revision), it_pos, lastkept(it_pos)))
 //@   loop 0 assume [cnt-def-here] cnt(0) == 0 && (it_pos < rec_n ==> cnt(it_pos+1) == cnt(it_pos)+ite(emitted(it_pos, w), 1, 0))
 //@   loop 0 assume [cnt-def-at-previous] lastvis(it_pos) >= 0 ==> cnt(lastvis(it_pos)+1) == cnt(lastvis(it_pos))+ite(emitted(lastvis(it_pos), w), 1, 0)
 //@   loop 0 assume [cnt-monotone] forall(i, 0 <= i && i <= rec_n, cnt(i) >= 0 && cnt(i) <= i && forall(k, i <= k && k <= rec_n, cnt(i) <= cnt(k)))
@@ -238,6 +271,7 @@ package scanner
 //@   loop 0 step_lemma [why-kept] !w.compact && out_n == head(out_n) && head(lastvis(it_pos)) >= 0 && it_pos == head(it_pos)+1 && rec_rev[head(it_pos)] <= w.revision ==> rec_uk[head(it_pos)] == rec_uk[head(lastvis(it_pos))] || rec_rev[head(lastvis(it_pos))] == 0 || dead(head(lastvis(it_pos)))
 //@   loop 0 step_lemma [kept-record-is-not-emitted] !w.compact && out_n == head(out_n) && head(lastvis(it_pos)) >= 0 && it_pos == head(it_pos)+1 && rec_rev[head(it_pos)] <= w.revision ==> cnt(head(lastvis(it_pos))+1) == cnt(head(lastvis(it_pos)))
 //@   loop 0 invariant [previous-is-the-last-visible-record] !w.compact ==> ite(lastvis(it_pos) < 0, prevRevision == 0, is_rec(lastvis(it_pos), prevUserKey, prevValue, prevRevision))
+//@   loop 0 invariant [previous-while-compacting] w.compact ==> ite(lastkept(it_pos) < 0, prevRevision == 0, is_rec(lastkept(it_pos), prevUserKey, prevValue, prevRevision)) && pair_hint(lastkept(it_pos), it_pos) && pair_hint(it_pos, lastkept(it_pos))
 //@   loop 0 invariant [emitted-so-far] !w.compact ==> out_n == cnt(ite(lastvis(it_pos) < 0, 0, lastvis(it_pos))) && count == out_n && cnt(it_pos) == cnt(lastvis(it_pos)+1)
 //@   loop 0 invariant [within-the-limit] !w.compact && out_limit > 0 ==> out_n <= out_limit
 //@   loop 0 invariant [content-so-far] !w.compact ==> forall(i, 0 <= i && i < lastvis(it_pos) && emitted(i, w), is_rec(i, out_key[cnt(i)], out_val[cnt(i)], out_rev[cnt(i)]))
